@@ -151,12 +151,12 @@ def one(task):
     return r
 
 
-def run_pool(tasks, jobs=14, per_task_timeout=600):
+def run_pool(tasks, jobs=14, per_task_timeout=600, one_fn=None):
     import multiprocessing as mp
     out = [None] * len(tasks)
     ctx = mp.get_context("fork")
     with ctx.Pool(processes=jobs, maxtasksperchild=20) as pool:
-        handles = [pool.apply_async(one, (t,)) for t in tasks]
+        handles = [pool.apply_async(one_fn or one, (t,)) for t in tasks]
         deadline = time.time() + per_task_timeout + 60 * (1 + len(tasks) // max(1, jobs))
         for i, h in enumerate(handles):
             try:
